@@ -184,7 +184,8 @@ func ComputeAsset(entropy []byte) ([]byte, error) {
 		return nil, errors.New("invalid issuance entropy size")
 	}
 
-	buf := append(entropy, make([]byte, 32)...)
+	buf := make([]byte, len(entropy)+32)
+	copy(buf, entropy)
 	asset := fastsha256.MidState256(buf)
 	return asset[:], nil
 }
@@ -206,7 +207,7 @@ func ComputeReissuanceToken(entropy []byte, flag uint) ([]byte, error) {
 
 	buf := make([]byte, 32)
 	buf[0] = byte(flag + 1)
-	buf = append(entropy, buf...)
+	buf = append(append([]byte{}, entropy...), buf...)
 	token := fastsha256.MidState256(buf)
 	return token[:], nil
 }
